@@ -1,6 +1,7 @@
 package main
 
 import (
+	"encoding/json"
 	"fmt"
 	"strings"
 	"sync"
@@ -151,10 +152,27 @@ func traceACL(o opts) error {
 	patPool := []string{"team\\Eng", "x\\E|\\Q", "*", "a", "b", "dev/*", "*/x", "a*b*", "", "_internal/*", "a\nb", "dev/x", "prod/*", "prod/key", "a/..", "dev/../x"}
 	// names are opaque strings: path-like ones ("..", "//", "/./", trailing "/") mean nothing special
 	namePool := []string{"team\\Eng", "teamng", "a", "b", "dev/x", "dev/", "ab", "a\nb", "", "_internal/k", "x", "aXbY", "dev/../prod/key", "a/..", "/..", "a..b//c", "dev//x", "dev/./x", "./a", "prod/key", "dev/../x", ".."}
+	// names that contain a whole pattern of the pool as a proper prefix, suffix or substring
+	namePool = append(namePool, "prod/key-of-the-admin", "other/prod/key", "xdev/x", "dev/xx", "team/a", "ab/dev/x/cd")
 	for i := 0; i < o.n; i++ {
 		rs := genRules(r, acts, patPool)
+		if r.Intn(4) == 0 {
+			// a rule with three patterns (the generator above stops at two)
+			rs = append(rs, acl.Rule{Action: []acl.Action{acl.Action(pick(r, acts)), acl.Action(pick(r, acts))},
+				Secret: []acl.Secret{acl.Secret(pick(r, patPool)), acl.Secret(pick(r, patPool)), acl.Secret(pick(r, patPool))}})
+		}
 		a := pick(r, acts)
 		n := pick(r, namePool)
+		if i%2 == 1 {
+			// the way the server gets its rules: decoded from the JSON of a capability grant
+			if bs, err := json.Marshal(rs); err == nil {
+				var decoded acl.Rules
+				if json.Unmarshal(bs, &decoded) == nil && len(decoded) == len(rs) {
+					emit("allow\t%s\t%s\t%s\t%s", encRules(rs), hx(a), hx(n), safeAllow(decoded, a, n))
+					continue
+				}
+			}
+		}
 		emit("allow\t%s\t%s\t%s\t%s", encRules(rs), hx(a), hx(n), safeAllow(rs, a, n))
 	}
 	return nil
